@@ -2,9 +2,9 @@ package props
 
 import (
 	"fmt"
-	"strings"
 	"math/rand/v2"
 	"sort"
+	"strings"
 
 	"verifharness/gen"
 	"verifharness/mon"
@@ -278,6 +278,15 @@ func (p c16) Run(w *mon.Worker, idx int) mon.Result {
 		// the source of the copy loses an element afterwards: the copy's nodes still sit where they sat
 		full = ".x = (.y | " + expr + ") | del(.y[" + fmt.Sprint(r.IntN(len(doc.A))) + "]) | .x"
 		res.Tags = append(res.Tags, "copy_then_delete_from_source")
+	} else if !writeBack && !pair && f.seq && expr == "." && r.IntN(3) == 0 {
+		// an element is deleted: the elements behind it move up, and say so with keys of the same type as before
+		input = ref.MapV(ref.KV{K: "y", V: doc}, ref.KV{K: "keep", V: ref.IntV(1)})
+		di := r.IntN(len(doc.A))
+		full = []string{"del(.y[%d]) | .y", "delpaths([[\"y\", %d]]) | .y", "del(.y[%d]) | del(.y[0]) | .y"}[r.IntN(3)]
+		full = fmt.Sprintf(full, di)
+		prefix = []any{"y"}
+		writeBack = true
+		res.Tags = append(res.Tags, "delete_then_look")
 	} else if !writeBack && !pair && f.seq && expr == "." && r.IntN(2) == 0 {
 		// a value bound to a variable before an element is deleted from the document
 		input = ref.MapV(ref.KV{K: "y", V: doc}, ref.KV{K: "keep", V: ref.IntV(1)})
@@ -378,6 +387,16 @@ func (p c16) Run(w *mon.Worker, idx int) mon.Result {
 			return res
 		}
 	}
+	// asked twice within ONE evaluation, with other questions in between: the answers do not change
+	if twice, e6 := q("[[.. | path], [.. | [key]], [.. | [parent | path]], [.. | path], [.. | [key]]]"); e6 == nil && len(twice.A) == 5 {
+		if !ref.EqualNum(twice.A[0], paths) || !ref.EqualNum(twice.A[3], paths) {
+			return fail("global: `%s`: the paths reported by a second sweep of the same evaluation differ from the first\n first  %s\n second %s\n alone  %s", full, clipStr(twice.A[0].JSON(), 400), clipStr(twice.A[3].JSON(), 400), clipStr(paths.JSON(), 400))
+		}
+		if !ref.EqualNum(twice.A[1], keys) || !ref.EqualNum(twice.A[4], keys) || !ref.EqualNum(twice.A[2], ppaths) {
+			return fail("local: `%s`: key / parent path reported by a second sweep of the same evaluation differ from the first", full)
+		}
+		res.Tags = append(res.Tags, "asked_twice")
+	}
 	n := len(vals.A)
 	if len(paths.A) != n || len(keys.A) != n || len(parents.A) != n || len(ppaths.A) != n {
 		return fail("`%s | ..` yields %d nodes but path/key/parent report %d/%d/%d/%d results", full, n, len(paths.A), len(keys.A), len(parents.A), len(ppaths.A))
@@ -463,6 +482,14 @@ func (p c16) Run(w *mon.Worker, idx int) mon.Result {
 			break
 		}
 		par := parents.A[i].A[0]
+		if par.K == ref.Seq {
+			// positions are integers, in `key` and in `path` alike
+			_, kInt := in.key.(int)
+			if last := paths.A[i].A[len(paths.A[i].A)-1]; !kInt || last.K != ref.Int {
+				violation = fmt.Sprintf("local: node %d sits in a sequence but reports key %#v / last path element %s (not integers)", i, in.key, last.JSON())
+				break
+			}
+		}
 		// the parent IS the container found at the parent's path (not a look-alike with the same path and that child)
 		if !stale {
 			if at2, ok2 := base.GetPath(in.ppath); !ok2 || !ref.EqualNum(at2, par) {
@@ -586,7 +613,6 @@ func (p c16) Run(w *mon.Worker, idx int) mon.Result {
 	return fail("%s\n f = %s\n doc = %s\n value = %s\n paths = %s", violation, full, input, clipStr(root.JSON(), 300), clipStr(paths.JSON(), 300))
 }
 
-
 // c16MergeDoc: block-style YAML whose maps get entries through merge keys in every arrangement: one
 // alias, a list whose maps share keys, an explicit key before / after the merge key, a merge of a merge.
 func c16MergeDoc(r *rand.Rand) string {
@@ -608,7 +634,6 @@ func c16MergeDoc(r *rand.Rand) string {
 	}
 	return sb.String()
 }
-
 
 func c16XMLDoc(r *rand.Rand) string {
 	var sb strings.Builder
